@@ -5,6 +5,7 @@ import (
 	"crypto/cipher"
 	"encoding/binary"
 	"encoding/hex"
+	"errors"
 	"fmt"
 	"io"
 	"path/filepath"
@@ -151,25 +152,29 @@ func (e *EncryptedISO) Read(b []byte) (int, error) {
 	readStart := e.offset
 
 	read, err := e.privateFile.Read(b)
-	if err != nil || read == 0 {
-		return read, err
+	if read > 0 {
+		e.offset += sizeBytes(read)
+		e.clearRegionsData(readStart, b[:read])
+
+		if decErr := e.decryptData(readStart, b[:read], false); decErr != nil {
+			return 0, decErr
+		}
 	}
 
-	e.offset += sizeBytes(read)
-	e.clearRegionsData(readStart, b[:read])
-	e.decryptData(readStart, b[:read], false)
-	return read, nil
+	return read, err
 }
 
 func (e *EncryptedISO) ReadAt(b []byte, off int64) (int, error) {
 	read, err := e.privateFile.ReadAt(b, off)
-	if err != nil || read == 0 {
-		return read, err
+	if read > 0 {
+		e.clearRegionsData(sizeBytes(off), b[:read])
+
+		if decErr := e.decryptData(sizeBytes(off), b[:read], true); decErr != nil {
+			return 0, decErr
+		}
 	}
 
-	e.clearRegionsData(sizeBytes(off), b[:read])
-	e.decryptData(sizeBytes(off), b[:read], true)
-	return read, nil
+	return read, err
 }
 
 func (e *EncryptedISO) Seek(offset int64, whence int) (int64, error) {
@@ -192,20 +197,45 @@ func (e *EncryptedISO) clearRegionsData(start sizeBytes, data []byte) {
 	}
 }
 
-func (e *EncryptedISO) decryptData(start sizeBytes, data []byte, cloneCBC bool) {
+// decryptData decrypts in place the part of data (which was read from offset start) that lies in encrypted regions.
+// A sector can be decrypted only as a whole, so for a sector covered by data only partially
+// (read is not aligned to sector size) the whole sector is fetched from the underlying file.
+func (e *EncryptedISO) decryptData(start sizeBytes, data []byte, cloneCBC bool) error {
 	end := start + sizeBytes(len(data))
 	for _, region := range e.encryptedRegions {
-		if region.end <= start.sectors() || region.start > end.sectors() { // not covered
+		if region.end <= start.floorSectors() || region.start >= end.sectors() { // not covered
 			continue
 		}
 
 		startSector := max(region.start, start.floorSectors())
 		endSector := min(region.end, end.sectors())
 		for i := startSector; i < endSector; i++ {
-			encryptedSpan := data[i.bytes()-start : i.next().bytes()-start]
-			e.setIVForSector(i, cloneCBC).CryptBlocks(encryptedSpan, encryptedSpan)
+			sectorStart, sectorEnd := i.bytes(), i.next().bytes()
+			if sectorStart >= start && sectorEnd <= end {
+				encryptedSpan := data[sectorStart-start : sectorEnd-start]
+				e.setIVForSector(i, cloneCBC).CryptBlocks(encryptedSpan, encryptedSpan)
+				continue
+			}
+
+			var sector [sectorSize]byte
+
+			n, err := e.privateFile.ReadAt(sector[:], int64(sectorStart))
+			if sizeBytes(n) < sectorSize {
+				if err != nil && !errors.Is(err, io.EOF) {
+					return fmt.Errorf("read sector %d failed: %w", i, err)
+				}
+
+				continue // file ends inside of this sector, nothing to decrypt
+			}
+
+			e.setIVForSector(i, cloneCBC).CryptBlocks(sector[:], sector[:])
+
+			from, to := max(sectorStart, start), min(sectorEnd, end)
+			copy(data[from-start:to-start], sector[from-sectorStart:to-sectorStart])
 		}
 	}
+
+	return nil
 }
 
 func (*EncryptedISO) Write([]byte) (int, error) { return 0, syscall.EPERM }
